@@ -25,6 +25,8 @@ var c05Table = map[byte]refmodel.Behaviour{
 	'r': {refmodel.SRedispAbort, refmodel.SProbe, refmodel.SNext, refmodel.SProbe},
 	'z': {refmodel.SAbortSt200, refmodel.SProbe},
 	'D': {refmodel.SSilent, refmodel.SDefault404}, // the built-in not-found responder (last handler of "notfound" chains)
+	'e': {refmodel.SAddErr, refmodel.SNext, refmodel.SProbe},
+	'f': {refmodel.SAddErr},
 }
 
 const c05Codes = "pnqabctsmwuz"
@@ -33,7 +35,11 @@ const c05Codes = "pnqabctsmwuz"
 func compareChain(sh chainShape, table map[byte]refmodel.Behaviour, st *fw.Stats) []fw.Viol {
 	obs, bs, regPanic := runChain(sh, table)
 	desc := func() string {
-		return fmt.Sprintf("chain of %d handlers (global %d, group %d, route %d via %s, + main), behaviours %q", sh.N, sh.Split[0], sh.Split[1], sh.Split[2], sh.Via, sh.Beh)
+		hooks := ""
+		if sh.Hooks != "" {
+			hooks = fmt.Sprintf(" on a router with hooks %q (E=OnError P=OnPanic)", sh.Hooks)
+		}
+		return fmt.Sprintf("chain of %d handlers (global %d, group %d, route %d via %s, + main), behaviours %q%s", sh.N, sh.Split[0], sh.Split[1], sh.Split[2], sh.Via, sh.Beh, hooks)
 	}
 	st.Evals++
 	if regPanic != nil {
@@ -162,6 +168,20 @@ func c05Gen(tier string, emit func(c05Case)) {
 			vectors(c05Codes, n, func(b string) { push(chainShape{N: n, Split: sp, Via: viaFor(sp), Beh: b}) })
 		}
 	}
+	// routers with an OnError and / or an OnPanic hook installed, and handlers that record errors (e = AddError,Next,probe;
+	// f = AddError): the hooks may not change which handlers run nor the status an abort determines
+	for n := 1; n <= 3; n++ {
+		for _, sp := range splitsOf(n - 1) {
+			for _, hk := range []string{"E", "P", "EP"} {
+				vectors(c05Codes+"ef", n, func(b string) {
+					if hk != "P" && !strings.ContainsAny(b, "ef") {
+						return
+					}
+					push(chainShape{N: n, Split: sp, Via: viaFor(sp), Beh: b, Hooks: hk})
+				})
+			}
+		}
+	}
 	// unmatched requests: global middleware around the built-in not-found responder, which must not start after an abort
 	for n := 2; n <= 4; n++ {
 		vectors("pnqabtsmuz", n-1, func(b string) {
@@ -194,6 +214,9 @@ func c05Gen(tier string, emit func(c05Case)) {
 		for _, def := range []byte{'q', 'p', 'n'} {
 			for _, sp := range splits {
 				deviations(n, def, "abctsmw", d, func(b string) { push(chainShape{N: n, Split: sp, Via: "use", Beh: b}) })
+				if n >= 61 && def != 'p' {
+					deviations(n, def, "acse", 1, func(b string) { push(chainShape{N: n, Split: sp, Via: "use", Beh: b, Hooks: "EP"}) })
+				}
 			}
 		}
 	}
@@ -222,7 +245,7 @@ func c05Run(c c05Case, st *fw.Stats) []fw.Viol {
 		st.Max("max_chain", int64(sh.N))
 	}
 	if st.WantSample() {
-		st.Sample(map[string]any{"chain": c.Shapes[0], "codes": "p=plain n=Next q=Next,probe a=probe,Abort,probe b=Abort,probe,Next,probe c=Next,probe,Abort,probe t=AbortThen,probe s=AbortWithStatus,probe m=AbortWithStatus(msg),probe,Next w=write,Next,probe u=SetStatus(201),Next z=AbortWithStatus(200),probe D=built-in 404 responder r=HandleContext to a route whose middleware aborts,probe,Next,probe"})
+		st.Sample(map[string]any{"chain": c.Shapes[0], "codes": "e=AddError,Next,probe f=AddError p=plain n=Next q=Next,probe a=probe,Abort,probe b=Abort,probe,Next,probe c=Next,probe,Abort,probe t=AbortThen,probe s=AbortWithStatus,probe m=AbortWithStatus(msg),probe,Next w=write,Next,probe u=SetStatus(201),Next z=AbortWithStatus(200),probe D=built-in 404 responder r=HandleContext to a route whose middleware aborts,probe,Next,probe"})
 	}
 	return vs
 }
@@ -230,7 +253,7 @@ func c05Run(c c05Case, st *fw.Stats) []fw.Viol {
 var c05Spec = fw.Spec[c05Case]{
 	ID:    "C05",
 	Level: "model_checking",
-	Rule: "complete product: all behaviour vectors over 12 handler behaviours (+ chains of global middleware around the built-in not-found responder) (+ one handler that re-dispatches with HandleContext to an aborting route, at every position of route-level chains n<=5) (plain, Next, Next+probe, SetStatus(201)+Next, Abort before/after/without Next, AbortThen, AbortWithStatus with/without message, write-then-Next) for chains of n<=4 (thorough 5) handlers x every split of the middleware into global/group/route; n=5 and chains near the handler limit (33,34,61,62,63) by deviation bounding (uniform default behaviour, <=d deviating positions at every position); IsAborted() sampled at every entry and around every abort/Next; " +
+	Rule: "complete product: all behaviour vectors over 12 handler behaviours (+ chains of global middleware around the built-in not-found responder) (+ one handler that re-dispatches with HandleContext to an aborting route, at every position of route-level chains n<=5) (+ the n<=3 product and the near-limit chains again on routers with OnError / OnPanic hooks installed and handlers that record errors) (plain, Next, Next+probe, SetStatus(201)+Next, Abort before/after/without Next, AbortThen, AbortWithStatus with/without message, write-then-Next) for chains of n<=4 (thorough 5) handlers x every split of the middleware into global/group/route; n=5 and chains near the handler limit (33,34,61,62,63) by deviation bounding (uniform default behaviour, <=d deviating positions at every position); IsAborted() sampled at every entry and around every abort/Next; " +
 		"each chain is run through ServeHTTP and compared event by event with a cursor-free chain interpreter; non-trivial = a chain containing an abort",
 	Assume: []string{"chains stay within the documented limit (62 middleware + main handler); global middleware is not counted by any registration check (noted in DESIGN, outside the property)"},
 	Bounds: func(tier string) map[string]any {
